@@ -360,6 +360,7 @@ def make_interp(ix, st, events):
     ms, attr_stubs = model_stubs(ix)
     stubs.update(ms)
     it = Interp(ix, stubs=stubs, on_event=rec, name="parser machine", attr_stubs=attr_stubs)
+    it.allow_guess = True        # paths through an unknown are reported as imprecise (exit 2) by the rules built on this exploration
     it.module_attrs = {("behave.i18n", "languages"): lang}
 
     def normalise(interp, s, node, seq):
